@@ -45,7 +45,7 @@ inductive PortSt | waiting | senderError | sendErr | replied
 
 structure Actor where
   name : Option Nat
-  sup : Option Nat              -- supervisor requested at spawn
+  sup : Option Nat              -- the supervisor slot: whom it is (or, while `linked` is false, will be) linked to
   linked : Bool                 -- link established (appears in `sup`'s child set)
   phase : Phase
   failedStart : Bool            -- the spawn did not produce a running actor
@@ -56,6 +56,7 @@ structure Actor where
   handled : Nat                 -- messages handled by its handlers (must stay 0 for a failed start)
   child : Bool                  -- was spawned by another actor's pre_start (a linked child)
   pending : List (Nat × Ev)     -- lifecycle events queued on its supervision port while it is starting
+  req : Option Nat := none      -- supervisor requested at spawn whose link is still to be made after pre_start
   deriving Repr, DecidableEq
 
 structure S where
@@ -75,6 +76,7 @@ inductive Op where
   | beginTL (name : Option Nat) (sup : Option Nat)   -- the same for a thread-local actor: links at once
   | join (a g : Nat) | monitor (a g : Nat)           -- side effects of a's pre_start
   | selfsend (a : Nat)                               -- pre_start casts to itself
+  | selflink (a w : Nat)                             -- pre_start links itself to another actor: `myself.get_cell().link(w)`
   | spawnChild (a : Nat)                             -- pre_start spawns a linked child (which starts at once)
   | cast (a : Nat) | call (a : Nat)                  -- somebody else sends to the starting actor
   | finish (a : Nat) (o : Outcome)                   -- pre_start returns
@@ -186,27 +188,31 @@ def step (s : S) : Op → S
     if clash then
       -- AlreadyRegistered: a cell that never existed for anybody else; nothing changes
       -- (an id is burnt: the model keeps a tombstone so that ids stay aligned with the code)
-      { s with actors := s.actors ++ [⟨none, none, false, .stopped, true, [], [], [], 0, 0, false, []⟩] }
+      { s with actors := s.actors ++ [⟨none, none, false, .stopped, true, [], [], [], 0, 0, false, [], none⟩] }
     else
-      { s with actors := s.actors ++ [⟨name, sup, false, .starting, false, [], [], [], 0, 0, false, []⟩],
+      { s with actors := s.actors ++ [⟨name, sup, false, .starting, false, [], [], [], 0, 0, false, [], sup⟩],
                names := match name with | some n => s.names ++ [(n, a)] | none => s.names }
   | .beginTL name sup =>
     let a := s.actors.length
     if clashes s name then
-      { s with actors := s.actors ++ [⟨none, none, false, .stopped, true, [], [], [], 0, 0, false, []⟩] }
+      { s with actors := s.actors ++ [⟨none, none, false, .stopped, true, [], [], [], 0, 0, false, [], none⟩] }
     else if refusedBy s sup then
       -- "Supervisor is shutting down": the guard cleans up before `pre_start` ever ran
-      { s with actors := s.actors ++ [⟨name, sup, false, .stopped, true, [], [], [], 0, 0, false, []⟩] }
+      { s with actors := s.actors ++ [⟨name, sup, false, .stopped, true, [], [], [], 0, 0, false, [], none⟩] }
     else
-      { s with actors := s.actors ++ [⟨name, sup, sup.isSome, .starting, false, [], [], [], 0, 0, false, []⟩],
+      { s with actors := s.actors ++ [⟨name, sup, sup.isSome, .starting, false, [], [], [], 0, 0, false, [], none⟩],
                names := match name with | some n => s.names ++ [(n, a)] | none => s.names }
   | .join a g => if isStarting s a then setActor s a (fun x => if x.groups.contains g then x else { x with groups := x.groups ++ [g] }) else s
   | .monitor a g => if isStarting s a then setActor s a (fun x => if x.monitors.contains g then x else { x with monitors := x.monitors ++ [g] }) else s
   | .selfsend a => if isStarting s a then setActor s a (fun x => { x with casts := x.casts + 1 }) else s
+  | .selflink a w =>
+    -- `SupervisionTree::link`: refused if `w` is shutting down; otherwise `w` takes the (single)
+    -- supervisor slot — a link made earlier (thread-local early link) moves to `w`
+    if isStarting s a && supAccepts s w && a != w then setActor s a (fun x => { x with sup := some w, linked := true }) else s
   | .spawnChild a =>
     if isStarting s a then
       -- the child's own pre_start succeeds at once and it links to `a` (Starting < Draining: accepted)
-      pushEvent { s with actors := s.actors ++ [⟨none, some a, true, .running, false, [], [], [], 0, 0, true, []⟩] }
+      pushEvent { s with actors := s.actors ++ [⟨none, some a, true, .running, false, [], [], [], 0, 0, true, [], none⟩] }
         a s.actors.length .started
     else s
   | .cast a => if isStarting s a then setActor s a (fun x => { x with casts := x.casts + 1 }) else s
@@ -226,12 +232,20 @@ def step (s : S) : Op → S
     | .ok =>
       match s.actors[a]? with
       | some x =>
-        (match x.sup with
+        (match x.req with
          | some p =>
+           -- `try_link(requested supervisor)`: on success it replaces whatever link pre_start made
            if supAccepts s p then
-             pushEvent (becomeRunning s a true) p a .started
+             pushEvent (becomeRunning (setActor s a (fun x => { x with sup := some p })) a true) p a .started
            else failStart s a                      -- "Supervisor is shutting down"
-         | none => becomeRunning s a false)
+         | none =>
+           -- nothing (more) to link: the actor runs under whatever link exists (none, the
+           -- thread-local early link, or one pre_start made itself)
+           if x.linked then
+             (match x.sup with
+              | some w => pushEvent (becomeRunning s a true) w a .started
+              | none => becomeRunning s a true)
+           else becomeRunning s a false)
       | none => s
     | _ => failStart s a
   | .cut a => if isStarting s a then failStart s a else s
